@@ -161,22 +161,20 @@ func (ks *c17Keys) ringList(names []string) openpgp.EntityList {
 	return el
 }
 
-// ringFile writes (once) the binary public keyring holding exactly the named keys and returns its path.
+// ringFile writes the binary public keyring holding exactly the named keys and returns its path. The path is the SAME
+// for every key set within a process and the file is rewritten whenever the wanted set changes: trust must follow the
+// keyring's current content, so anything that remembers an earlier content of that path shows up as a wrong verdict.
 func (ks *c17Keys) ringFile(names []string) (string, error) {
 	names = c17SortedUnique(names)
-	name := "c17-ring"
-	for _, n := range names {
-		name += "-" + n
-	}
-	path := filepath.Join(ks.dir, name+".gpg")
-	if _, err := os.Stat(path); err == nil {
-		return path, nil
-	}
+	path := filepath.Join(ks.dir, "c17-ring.gpg")
 	var buf bytes.Buffer
 	for _, e := range ks.ringList(names) {
 		if err := e.Serialize(&buf); err != nil {
 			return "", err
 		}
+	}
+	if old, err := os.ReadFile(path); err == nil && bytes.Equal(old, buf.Bytes()) {
+		return path, nil
 	}
 	return path, os.WriteFile(path, buf.Bytes(), 0o644)
 }
